@@ -160,11 +160,18 @@ def integer(ctx, prog, F, b, ty):
         f_mul, f_add = ("ovf", "Mul", LN, ("int", 10, uty)), ("ovf", "Add", ("bin", "Mul", LN, ("int", 10, uty)), digit)
         flags = ("bin", "BitOr", f_mul, f_add)
         # both flags clear: tested together (overflowing_* and `|`) or one after the other (checked_* and match)
-        clear = ("nholds", flags) in p.conds or (("nholds", f_mul) in p.conds and ("nholds", f_add) in p.conds)
+        # third spelling: a bound test before a plain multiply-add:  num <= (MAX - digit) / 10   <=>   num*10 + digit <= MAX
+        umax = ("int", (1 << bits) - 1, uty)
+        dig_terms = [digit, strip_casts(digit)]
+        bounds = [("bin", "Div", ("bin", "Sub", umax, d_), ("int", 10, uty)) for d_ in dig_terms]
+        bound_clear = any(table.le(LN, bd) in p.conds for bd in bounds)
+        clear = ("nholds", flags) in p.conds or (("nholds", f_mul) in p.conds and ("nholds", f_add) in p.conds) or bound_clear
         if not clear:
             ctx.violation("REC", key + "|overflow", "the loop continues without requiring both overflow flags of num*10 + digit to be clear", b.file())
         errs = [q for q in paths if q.kind == "return" and (("holds", flags) in q.conds or ("holds", f_mul) in q.conds or ("holds", f_add) in q.conds)]
-        split_form = ("nholds", flags) not in p.conds
+        if bound_clear:
+            errs = [q for q in paths if q.kind == "return" and any(table.lt(bd, LN) in q.conds for bd in bounds)]
+        split_form = ("nholds", flags) not in p.conds and not bound_clear
         if split_form and not (any(("holds", f_mul) in q.conds for q in errs) and any(("holds", f_add) in q.conds for q in errs)):
             errs = []
         if not errs or any(split_err(q.value) is None or split_err(q.value)[1] != "ParseInteger" for q in errs):
@@ -198,7 +205,8 @@ def integer(ctx, prog, F, b, ty):
     max_neg = 1 << (bits - 1)
     for d, items in groups.items():
         exits = [p for p, _ in items if p.kind == "return" and not any(
-            c[0] == "holds" and (c[1][0] == "ovf" or (c[1][0] == "bin" and c[1][1] == "BitOr")) for c in p.conds)]   # (overflow exits: REC)
+            (c[0] == "holds" and (c[1][0] == "ovf" or (c[1][0] == "bin" and c[1][1] == "BitOr")))
+            or (c[0] == "lt" and c[2] == LN and c[1][0] == "bin" and c[1][1] == "Div") for c in p.conds)]   # (overflow exits: REC)
         if not signed:
             rows = [Row([], ok_value(LN), name="unsigned: value is the accumulator")]
             cons = []
